@@ -244,9 +244,12 @@ def json_oracle(doc):
         return ("skip", "python recursion")
     except ValueError as e:
         return ("reject", str(e)[:60])
-    if has_surrogate(v):
+    sur, inf = has_surrogate(v), has_inf(v)
+    if sur and inf:
+        return ("limit", "lone surrogate and number overflow")
+    if sur:
         return ("limit", "lone surrogate")
-    if has_inf(v):
+    if inf:
         return ("limit", "number overflow")
     return ("value", v)
 
@@ -339,10 +342,10 @@ def gen_radix_cases(rng, tier):
             if rng.random() < 0.3:
                 add(r, "0" * rng.randrange(1, 40) + rand_digits(rng, r, n))
         # rounding ties / near ties beyond the window
-        for _ in range(300 if tier == "quick" else 6000):
+        for _ in range(1500 if tier == "quick" else 8000):
             add(r, tie_string(rng, r))
         # sticky patterns: window digits, zeros, one late non-zero digit
-        for _ in range(150 if tier == "quick" else 3000):
+        for _ in range(800 if tier == "quick" else 4000):
             head = rand_digits(rng, r, w, first_nonzero=True)
             k = rng.randrange(1, 400 - w)
             tail = ["0"] * k
@@ -350,7 +353,7 @@ def gen_radix_cases(rng, tier):
                 tail[rng.randrange(k)] = rng.choice("1234567" if r == 8 else "123456789abcdef")
             add(r, head + "".join(tail))
         # a non-digit at every position
-        plens = [1, 2, 3, w - 1, w, w + 1, w + 2, 100, 400] if tier == "quick" else list(range(1, 401))
+        plens = [1, 2, 3, 7, w - 1, w, w + 1, w + 2, 64, 100, 257, 400] if tier == "quick" else list(range(1, 401))
         for n in plens:
             base = rand_digits(rng, r, n, first_nonzero=True)
             odd_pool = ODD_CHARS + (["8", "9", "a", "A"] if r == 8 else [])
@@ -381,13 +384,13 @@ def gen_parseint_cases(rng, tier):
         sign = rng.choice(["", "", "-"])
         add(sign + rand_digits(rng, 10, n, first_nonzero=rng.random() < 0.8))
     # decimal ties: (2^53 + odd) * 2^k + 2^(k-1)
-    for _ in range(200 if tier == "quick" else 4000):
+    for _ in range(1000 if tier == "quick" else 6000):
         m = rng.getrandbits(53) | (1 << 52)
         k = rng.randrange(1, 900)
         v = ((m << 1) | 1) << k
         v += rng.choice([0, 0, 1, -1, rng.randrange(-5, 6)])
         add(rng.choice(["", "-"]) + str(v))
-    plens = [1, 2, 17, 40, 400] if tier == "quick" else list(range(1, 401, 7))
+    plens = [1, 2, 17, 40, 309, 400] if tier == "quick" else list(range(1, 401, 7))
     for n in plens:
         base = rand_digits(rng, 10, n, first_nonzero=True)
         for pos in range(n + 1):
@@ -423,7 +426,7 @@ def gen_b64_cases(rng, tier):
         cases.append({"fam": "b64encs", "s": "".join(s)})
     # malformed / non-canonical encodings
     pool = list(B64ALPHA) + ["=", "=", "=", "-", "_", " ", "\n", "\u00e9", "\U00010000", "\x00", ".", "\\", "'"]
-    for _ in range(1500 if tier == "quick" else 40000):
+    for _ in range(6000 if tier == "quick" else 60000):
         b = rand_bytes(rng, rng.randrange(0, 14))
         s = list(base64.b64encode(b).decode())
         k = rng.random()
@@ -500,7 +503,7 @@ def gen_utf8_cases(rng, tier):
     cases.append({"fam": "utf8dec", "b": ""})
     for b in INVALID_UTF8:
         cases.append({"fam": "utf8dec", "b": b.hex()})
-    for _ in range(1500 if tier == "quick" else 60000):
+    for _ in range(6000 if tier == "quick" else 80000):
         k = rng.random()
         if k < 0.3:
             b = rand_bytes(rng, rng.randrange(1, 12))
@@ -529,7 +532,7 @@ def gen_esc_cases(rng, tier):
     fixed = ["", "'", "''", "'\"'\"'", "a'b", "$", "$$", "$$$", "a$b$", "&", "&amp;", "&lt;", "<>&\"'", "\\", "\"", "\\\"", "\x00",
              "\x1a", "\x1f", "\x7f", "\x80", "\x9f", "\xa0", "\u2028", "\U0001f600", "it's \"q\" & <x> $y", "\\u0041", "\n", "\r\n",
              "".join(chr(c) for c in range(0, 0xA1))]
-    n = 250 if tier == "quick" else 8000
+    n = 1000 if tier == "quick" else 10000
     strs = fixed + [rand_string(rng, rng.randrange(0, 14), special) for _ in range(n)]
     for s in strs:
         for kind in ("bash", "dollars", "xml", "json", "python"):
@@ -805,8 +808,12 @@ def json_check(c, ans):
     if "failed to parse JSON" not in got[1]:
         return "rejection is not a JSON parse error: " + got[1][:120]
     if exp[0] == "limit":
-        want = "number overflow" if exp[1] == "number overflow" else "invalid string escape"
-        if want not in got[1]:
+        want = []
+        if "number overflow" in exp[1]:
+            want.append("number overflow")
+        if "lone surrogate" in exp[1]:
+            want.append("invalid string escape")
+        if not any(w in got[1] for w in want):
             return "limit case (%s) rejected for another reason: %s" % (exp[1], got[1][:120])
     return None
 
@@ -995,7 +1002,7 @@ def run_json(rep, tier):
     for s in fixed:
         if ok_utf8(s):
             cases.append({"fam": "json", "s": s})
-    n = 1500 if tier == "quick" else 40000
+    n = 4000 if tier == "quick" else 50000
     wsall = [" ", "\n", "\r", "\t", "  ", "\r\n", " \t "]
     for i in range(n):
         o = {"ws": wsall, "pairs": True, "lone": rng.random() < 0.1, "overflow": rng.random() < 0.15, "dups": rng.random() < 0.1}
@@ -1021,7 +1028,7 @@ def run_yaml(rep, tier):
     for s in YAML_SNIPPETS:
         if ok_utf8(s):
             cases.append({"fam": "yaml", "s": s})
-    n = 2500 if tier == "quick" else 80000
+    n = 6000 if tier == "quick" else 100000
     for _ in range(n):
         d = gen_yaml_doc(rng)
         if rng.random() < 0.7:
@@ -1031,7 +1038,7 @@ def run_yaml(rep, tier):
     run_family(rep, cases, with_model=False)
     # agreement with parseJson on JSON documents: no tabs, no surrogate-pair escapes, depth < 100
     docs = []
-    m = 1200 if tier == "quick" else 30000
+    m = 3000 if tier == "quick" else 40000
     for i in range(m):
         o = {"ws": [" ", "\n", "  ", "\n  ", "\r\n"], "pairs": False, "lone": False, "overflow": False, "dups": False}
         depth = rng.randrange(0, 6) if rng.random() < 0.9 else rng.randrange(6, 12)
